@@ -114,10 +114,19 @@ def run(ctx):
     chk.ob('F1', 'unknown-name-skipped', ok, ex[0].where() if ex else F.where(), F.name, detail,
            how='the not-found edge reaches neither the filter call nor a DROP return before the next element')
     # ---- F2 ----------------------------------------------------------------------------
-    toks = [c for c in F.calls() if c.get('callee') in ('strtok_r', 'strsep', 'strchr', 'strtok')
+    toks = [c for c in F.calls() if c.get('callee') in ('strtok_r', 'strsep', 'strchr', 'strtok', 'strcspn', 'strspn', 'strpbrk')
             and C.in_loop(F, c)]
     if not toks:
         raise AnalysisBroken('no tokeniser call found in the loop of %s' % CHAIN)
+    # the private copy of the chain: the local array filled from the chain parameter.  Pointers into it are
+    # element text as well (a hand-written walk over the copy instead of strtok_r)
+    chain_copy = set()
+    for cp in F.calls():
+        if cp.get('callee') in ('strncpy', 'memcpy', 'strcpy', 'snprintf') and cp.ch[2:]:
+            d = decl_of(arg(cp, 0))
+            if d is not None and (strip(arg(cp, 0)).get('ct') or '').rstrip().endswith(']') and any(
+                    (decl_of(a) or {}).get('kind') == 'parm' and (decl_of(a) or {}).get('index') == 0 for a in cp.ch[2:] if a is not None):
+                chain_copy.add(d['id'])
     for c in calls:
         pos = C.elem_positions(F)
         b, i = pos[c.id]
@@ -132,7 +141,7 @@ def run(ctx):
             h = common.holder(F, t)
             if h is not None:
                 holders.add(h)
-        pt = PtrTaint(F, lambda n: any(n is t for t in toks), holders)
+        pt = PtrTaint(F, lambda n: any(n is t for t in toks), holders | chain_copy)
         # local name buffer filled from the element counts as derived
         for cp in F.calls():
             if cp.get('callee') in ('strncpy', 'memcpy', 'strcpy', 'snprintf'):
@@ -144,7 +153,7 @@ def run(ctx):
         okn = pt.is_derived(a0)
         # the argument must be the element's own text (a pointer into the chain copy) or the empty
         # string: a copy into a smaller fixed buffer would silently cut long arguments
-        pt_direct = PtrTaint(F, lambda n: any(n is t for t in toks), holders)
+        pt_direct = PtrTaint(F, lambda n: any(n is t for t in toks), holders | chain_copy)
         oka = all(pt_direct.is_derived(x) or _is_empty_string_buffer(F, x) for x in _defs_or_self(F, a1))
         chk.ob('F2', 'name-and-arg-from-the-element', okn and oka, c.where(), F.name,
                'filter call %s does not take its name from the chain element just parsed, or its argument is not the '
@@ -215,7 +224,7 @@ def run(ctx):
                 if n.k == 'CallExpr' and n.get('callee') in ('strlen', 'strcmp', 'strncmp', 'strchr') and \
                         any((decl_of(a) or {}).get('id') in elem_ids for a in n.ch[1:] if a is not None):
                     reads = True
-            if reads:
+            if reads and not _end_of_chain_test(F, blk, elem_ids):
                 bad.append(cnd)
         chk.ob('F5', 'no-loop-exit-on-element-content', not bad, bad[0].where() if bad else c.where(), F.name,
                'the loop over the chain is left when %s holds, a test of the CURRENT element\'s text: an empty or '
@@ -291,6 +300,39 @@ def _first_byte_zeroed(F, decl_id):
                     and strip(l.ch[1]).get('v') == 0 and strip(n.ch[1]).get('v') == 0:
                 return True
     return False
+
+
+def _end_of_chain_test(F, blk, elem_ids):
+    """the branch tests `*p` against NUL where, on every path to it, the last change of p was `p += strspn(p, SEPS)`:
+    p then rests on the first character that is not a separator, and that is NUL only at the end of the whole chain
+    (separators are the only places an element is cut at) - the walk has run out of text, no element is being judged"""
+    c = strip(blk.cond)
+    isx = lambda n: n.k == 'UnaryOperator' and n.get('op') == '*' and (decl_of(n.ch[0]) or {}).get('id') in elem_ids
+    ce = common.compare_edges(blk, isx)
+    if ce is None or ce[0] != 0:
+        return False
+    pid = next((decl_of(n.ch[0])['id'] for n in c.walk() if isx(n)), None)
+
+    def skip(e):
+        if e.k == 'CompoundAssignOperator' and e.get('op') == '+=' and (decl_of(e.ch[0]) or {}).get('id') == pid:
+            r = strip(e.ch[1])
+            return r is not None and r.k == 'CallExpr' and r.get('callee') == 'strspn' and \
+                (decl_of(arg(r, 0)) or {}).get('id') == pid
+        return False
+
+    def transfer(st, e):
+        if skip(e):
+            return True
+        if common.modifies_var(e, pid):
+            return False
+        return st
+    ins = C.forward_dataflow(F, False, transfer, lambda a, b: a and b)
+    st = ins.get(blk.id)
+    if st is None:
+        return False
+    for e in blk.elems:
+        st = transfer(st, e)
+    return bool(st)
 
 
 def _is_empty_string_buffer(F, a):
